@@ -5,7 +5,7 @@ from ..gen import G
 from ..common import run_apps, app, out_of, sig, base_files
 from ..core import unhx
 
-THEOREMS = ['colour_by_sign', 'strip_colour_figure', 'strip_plain', 'default_is_interleave', 'old_reporter_same_totals', 'shorten_fits', 'shorten_keeps_ends', 'desc_same_rows', 'no_color_position_irrelevant', 'strip_colour_register', 'strip_colour_old_and_summary']
+THEOREMS = ['colour_by_sign', 'strip_colour_figure', 'strip_plain', 'default_is_interleave', 'old_reporter_same_totals', 'shorten_fits', 'shorten_keeps_ends', 'desc_same_rows', 'no_color_position_irrelevant', 'strip_colour_register', 'strip_colour_old_and_summary', 'value_format_follows_source']
 LEVEL = 'proof'
 RULE = ('logs with empty days and names longer than the columns (multi-byte runes included) x all combinations of {colour, template default / left-aligned / old reporter, '
         'shorten, no-totals / totals-only, desc} x flag position; relations are evaluated between outputs of the implementation; '
